@@ -850,4 +850,152 @@ theorem reachable_inv {s : Sim} (h : Reachable s) : WF s ∧ Acc s ∧ ClockInv 
   | «until» _ hT hr ih => exact ⟨runUntil_wf ih.1 hr, runUntil_acc ih.2.1 hr, runUntil_clockInv ih.1 ih.2.2 hT hr⟩
   | next _ ih => exact ⟨runNext_wf ih.1, runNext_acc ih.2.1, runNext_clockInv ih.1 ih.2.2⟩
 
+/-! ### once cancelled, never executed -/
+
+/-- id `i` can no longer run: it sits cancelled in the list, or was already discarded -/
+def Dead (i : Nat) (s : Sim) : Prop := (∃ e ∈ s.pending, e.id = i ∧ e.cancelled = true) ∨ i ∈ s.gone
+
+theorem dead_of_pending_superset {i : Nat} {s s' : Sim} (h : Dead i s)
+    (hp : ∀ e ∈ s.pending, e.cancelled = true → ∃ e' ∈ s'.pending, e'.id = e.id ∧ e'.cancelled = true)
+    (hg : ∀ j ∈ s.gone, j ∈ s'.gone) : Dead i s' := by
+  rcases h with ⟨e, he, hi, hc⟩ | h
+  · obtain ⟨e', he', hi', hc'⟩ := hp e he hc
+    exact Or.inl ⟨e', he', by rw [hi', hi], hc'⟩
+  · exact Or.inr (hg i h)
+
+theorem pushUser_dead {i : Nat} {s : Sim} (h : Dead i s) (t : Int) (p a : Nat) : Dead i (pushUser s t p a) :=
+  dead_of_pending_superset h (fun e he hc => ⟨e, mem_insert.mpr (Or.inr he), rfl, hc⟩) (fun _ hj => hj)
+
+theorem pushStep_dead {i : Nat} {s : Sim} (h : Dead i s) : Dead i (pushStep s) :=
+  dead_of_pending_superset h (fun e he hc => ⟨e, mem_insert.mpr (Or.inr he), rfl, hc⟩) (fun _ hj => hj)
+
+theorem mapFlags_dead {i : Nat} {s : Sim} (h : Dead i s) (g : Ev → Ev)
+    (hg : ∀ e, (g e).id = e.id ∧ (e.cancelled = true → (g e).cancelled = true)) :
+    Dead i { s with pending := s.pending.map g } :=
+  dead_of_pending_superset h
+    (fun e he hc => ⟨g e, List.mem_map.mpr ⟨e, he, rfl⟩, (hg e).1, (hg e).2 hc⟩) (fun _ hj => hj)
+
+theorem doCmd_dead {i : Nat} {s : Sim} (h : Dead i s) (c : Cmd) : Dead i (doCmd s c) := by
+  cases c with
+  | schedAbs t p a =>
+    simp only [doCmd, schedAbs]
+    split
+    · rename_i s' hs
+      split at hs
+      · simp at hs
+      · split at hs
+        · simp at hs
+        · simp only [Except.ok.injEq] at hs; subst hs; exact pushUser_dead h _ _ _
+    · exact h
+  | schedRel d p a =>
+    simp only [doCmd, schedRel]
+    split
+    · rename_i s' hs
+      split at hs
+      · simp at hs
+      · split at hs
+        · simp at hs
+        · simp only [Except.ok.injEq] at hs; subst hs; exact pushUser_dead h _ _ _
+    · exact h
+  | cancel k => exact mapFlags_dead h _ (fun e => by split <;> simp)
+  | drop k => exact mapFlags_dead h _ (fun e => by split <;> simp)
+
+theorem foldl_doCmd_dead {i : Nat} {s : Sim} (h : Dead i s) (cs : List Cmd) : Dead i (cs.foldl doCmd s) := by
+  induction cs generalizing s with
+  | nil => exact h
+  | cons c cs ih => exact ih (doCmd_dead h c)
+
+theorem popped_dead {i : Nat} {s : Sim} (h : Dead i s) {e₀ : Ev} {rest : List Ev}
+    (hp : popLive s.pending = some (e₀, rest)) : Dead i (popped s e₀ rest) := by
+  obtain ⟨hd, hl⟩ := popLive_decomp hp
+  rcases h with ⟨e, he, hi, hc⟩ | h
+  · rw [hd] at he
+    rcases List.mem_append.mp he with he | he
+    · exact Or.inr (List.mem_append.mpr (Or.inr (List.mem_map.mpr ⟨e, he, hi⟩)))
+    · rcases List.mem_cons.mp he with rfl | he
+      · rw [hl] at hc; simp at hc
+      · exact Or.inl ⟨e, he, hi, hc⟩
+  · exact Or.inr (List.mem_append.mpr (Or.inl h))
+
+theorem exec_dead {i : Nat} {s : Sim} (h : Dead i s) (e : Ev) : Dead i (exec s e) := by
+  unfold exec
+  split
+  · exact dead_of_pending_superset h (fun e he hc => ⟨e, he, rfl, hc⟩) (fun j hj => List.mem_append.mpr (Or.inl hj))
+  · split
+    · apply foldl_doCmd_dead
+      have h1 : Dead i (rearm s) := by
+        unfold rearm; split
+        · exact pushStep_dead h
+        · exact h
+      exact dead_of_pending_superset h1 (fun e he hc => ⟨e, he, rfl, hc⟩) (fun _ hj => hj)
+    · apply foldl_doCmd_dead
+      exact dead_of_pending_superset h (fun e he hc => ⟨e, he, rfl, hc⟩) (fun _ hj => hj)
+
+theorem runUntil_dead {i : Nat} {f : Nat} {s s' : Sim} {T : Int} (h : Dead i s)
+    (hr : runUntil f s T = some s') : Dead i s' := by
+  induction f generalizing s with
+  | zero => simp [runUntil] at hr
+  | succ f ih =>
+    simp only [runUntil] at hr
+    split at hr
+    · rename_i hp
+      simp only [Option.some.injEq] at hr; subst hr
+      rcases h with ⟨e, he, hi, hc⟩ | h
+      · rw [← popLive_none hp] at he
+        exact Or.inr (List.mem_append.mpr (Or.inr (List.mem_map.mpr ⟨e, he, hi⟩)))
+      · exact Or.inr (List.mem_append.mpr (Or.inl h))
+    · rename_i e₀ rest hp
+      have hpd := popped_dead h hp
+      split at hr
+      · exact ih (exec_dead hpd e₀) hr
+      · simp only [Option.some.injEq] at hr; subst hr
+        exact dead_of_pending_superset hpd
+          (fun e he hc => ⟨e, mem_insert.mpr (Or.inr he), rfl, hc⟩) (fun _ hj => hj)
+
+theorem runNext_dead {i : Nat} {s : Sim} (h : Dead i s) : Dead i (runNext s) := by
+  unfold runNext
+  split
+  · rename_i hp
+    rcases h with ⟨e, he, hi, hc⟩ | h
+    · rw [← popLive_none hp] at he
+      exact Or.inr (List.mem_append.mpr (Or.inr (List.mem_map.mpr ⟨e, he, hi⟩)))
+    · exact Or.inr (List.mem_append.mpr (Or.inl h))
+  · rename_i e₀ rest hp
+    exact exec_dead (popped_dead h hp) e₀
+
+/-- `s'` is reachable from `s` by further operations -/
+inductive ReachableFrom (s : Sim) : Sim → Prop where
+  | refl : ReachableFrom s s
+  | cmd {s' : Sim} (c : Cmd) : ReachableFrom s s' → ReachableFrom s (doCmd s' c)
+  | until {s' s'' : Sim} {f : Nat} {T : Int} : ReachableFrom s s' → s'.now ≤ T → runUntil f s' T = some s'' →
+      ReachableFrom s s''
+  | next {s' : Sim} : ReachableFrom s s' → ReachableFrom s (runNext s')
+
+theorem reachableFrom_reachable {s s' : Sim} (h : Reachable s) (hr : ReachableFrom s s') : Reachable s' := by
+  induction hr with
+  | refl => exact h
+  | cmd c _ ih => exact .cmd c ih
+  | «until» _ hT hrun ih => exact .until ih hT hrun
+  | next _ ih => exact .next ih
+
+theorem dead_stays {i : Nat} {s s' : Sim} (h : Dead i s) (hr : ReachableFrom s s') : Dead i s' := by
+  induction hr with
+  | refl => exact h
+  | cmd c _ ih => exact doCmd_dead ih c
+  | «until» _ _ hrun ih => exact runUntil_dead ih hrun
+  | next _ ih => exact runNext_dead ih
+
+theorem dead_not_logged {i : Nat} {s : Sim} (ha : Acc s) (h : Dead i s) : i ∉ logIds s.log := by
+  intro hl
+  have hc := ha i
+  have h1 : 0 < (logIds s.log).count i := List.count_pos_iff.mpr hl
+  have h2 : 0 < (ids s.pending).count i + s.gone.count i := by
+    rcases h with ⟨e, he, hi, _⟩ | h
+    · have : 0 < (ids s.pending).count i := List.count_pos_iff.mpr (List.mem_map.mpr ⟨e, he, hi⟩)
+      omega
+    · have : 0 < s.gone.count i := List.count_pos_iff.mpr h
+      omega
+  simp only [List.count_nil, Nat.add_zero] at hc
+  split at hc <;> omega
+
 end Mesa.Devs
